@@ -2,6 +2,8 @@
 
 import numpy as np
 
+from toqito.matrix_props import is_hermitian
+
 
 def is_positive_definite(mat: np.ndarray) -> bool:
     r"""Check if matrix is positive definite (PD) :cite:`WikiPosDef`.
@@ -56,7 +58,7 @@ def is_positive_definite(mat: np.ndarray) -> bool:
     :return: Return :code:`True` if matrix is positive definite, and :code:`False` otherwise.
 
     """
-    if np.array_equal(mat, mat.conj().T):
+    if is_hermitian(mat):
         try:
             # Cholesky decomp requires that the matrix in question is
             # positive-definite. It will throw an error if this is not the case
